@@ -24,9 +24,10 @@ ASSUMPTIONS = ["g-vector in the tools convention Gt = (2 pi / lambda)(v - x) as 
 
 def grids(tier):
     # tilt alphabet: large tilts, zero, and a band of tiny tilts (cos(tilt) = 1 to within 1e-8 for |tilt| < 1.4e-4)
+    # ... and micro-steps at a large tilt (0.3 -> 0.300001): consecutive calls whose tilt matrices are np.allclose
     if tier == "quick":
-        return [0.5, 5, 20, 45, 60], list(range(0, 360, 30)), [-0.3, 0.0, 0.3, 1e-4, -3e-5]
-    return [0.5, 1, 5, 10, 20, 30, 45, 55, 60, 0.51], list(range(0, 360, 15)), [-0.3, -0.1, 0.0, 0.1, 0.3, 1e-4, -3e-5, 1e-6]
+        return [0.5, 5, 20, 45, 60], [0, 30, 75, 120, 165, 210, 255, 300], [-0.3, 0.0, 0.3, 0.300001, 1e-4, -3e-5]
+    return [0.5, 1, 5, 10, 20, 30, 45, 55, 60, 0.51], list(range(0, 360, 15)), [-0.3, -0.1, 0.0, 0.1, 0.3, 0.300001, 1e-4, -3e-5, 1e-6]
 
 
 def cases(tier, seed):
@@ -46,9 +47,9 @@ def check_case(case):
     tthd = case["tth"]
     tth = math.radians(tthd)
     tx = case["tx"]
-    dists = [10.0, 135.0, 1000.0]
+    dists = [10.0, 135.5, 1000.0]
     pix = [(0.01, 0.01), (0.0936, 0.0962), (0.5, 0.3)]
-    offs = [(0.0, 0.0, 0.0), (2.0, -2.0, 1.0), (-1.5, 0.5, -2.0)]
+    offs = [(0.0, 0.0, 0.0), (2.0, -2.0, 1.0), (-1.5, 0.5, -2.0), (0, 0, 0), (2, -2, 1)]  # the last two: Python ints
     centres = [(521.5, -31.25), (0.0, 1024.0)]
     for etad, ty, tz in itertools.product(etas, tilts, tilts):
         eta = math.radians(etad)
